@@ -916,7 +916,11 @@ def rule_R7stackrev(text, applied):
         head = f"let mut {kv}: usize = {recv}.stack.len(); while {kv} > 0 {{ {kv} -= 1; let {m.group(1)} = {recv}.stack[{kv}];"
         text = text[:m.start()] + _keep_newlines(text[m.start():m.end()], head) + text[m.end():]
         cnt += 1
-    t, n = _sub_masked(text, r"((?:\w+\s*\.\s*)*\w+)\s*\.\s*stack\(\)\s*\.\s*last\(\)", lambda m, s_: f"vlast_copied(&{''.join(m.group(1).split())}.stack)")
+    # `next_back()` of the (double-ended) copied slice iterator is its last element as well
+    t, n = _sub_masked(text, r"((?:\w+\s*\.\s*)*\w+)\s*\.\s*stack\(\)\s*\.\s*(?:last|next_back)\(\)", lambda m, s_: f"vlast_copied(&{''.join(m.group(1).split())}.stack)")
+    # `next()` of a fresh copied slice iterator is its first element
+    t, n2 = _sub_masked(t, r"((?:\w+\s*\.\s*)*\w+)\s*\.\s*stack\(\)\s*\.\s*next\(\)", lambda m, s_: f"vfirst_copied(&{''.join(m.group(1).split())}.stack)")
+    n += n2
     if cnt or n:
         applied.append(f"R7stackrevx{cnt + n}")
     return t
